@@ -3,8 +3,8 @@
 (* behaviour of HeaderMap.tla with the answers a plain map gives.  Spill events are the synchronous          *)
 (* memory-limit steps the driver placed between operations.  Values are version numbers (0 = absent); a Get   *)
 (* event also says whether the complete view came back field by field (`intact`).                            *)
-(* StrictInsert = FALSE tolerates exactly the listed known finding (insert of a key that is only on disk      *)
-(* answers "new"); the replay binding reports it.                                                            *)
+(* StrictInsert = FALSE tolerates exactly the listed known finding (insert of a present key answers "new",     *)
+(* which the real structure does for keys that live on disk only); the replay binding reports it.            *)
 EXTENDS HeaderMap, Json, IOUtils, TLCExt
 CONSTANT StrictInsert
 Rec == ndJsonDeserialize(IOEnv.TRACE)
@@ -18,7 +18,7 @@ TReset == /\ Is("Reset")
           /\ out' = [op |-> "none", ret |-> None, exp |-> None, spilled |-> FALSE]
 TInsert   == /\ Is("Insert") /\ Insert(Ev.k, Ev.v)
              /\ \/ Ev.ret = out'.exp
-                \/ ~StrictInsert /\ out'.spilled /\ Ev.ret = 0
+                \/ ~StrictInsert /\ out'.exp = 1 /\ Ev.ret = 0
 TGet      == Is("Get") /\ Get(Ev.k) /\ Ev.ret = out'.exp /\ Ev.intact = TRUE
 TContains == Is("Contains") /\ Contains(Ev.k) /\ Ev.ret = out'.exp
 TRemove   == Is("Remove") /\ Remove(Ev.k)
